@@ -44,7 +44,7 @@ var properties = []Property{
 	P("C03", "caller-memory purity analysis over SSA with module callees followed, access-path provenance, table and schema comparison",
 		"that validating against a profile cannot change the subject (no write to caller memory on any path); that subject, serial and unique ids reach the certificate from the like-named configuration and YAML fields without cross-wiring, the configured serial only when non-zero; the attribute short-name table; schema/struct agreement. Also: between the subject string and an attribute value only text-preserving operations occur (split, trim at the ends, hex decoding).",
 		"the string type chosen per value, comma/escape parsing for all subject strings, the reversal inside the subject parser, the bytes of the encoded DN.",
-		"PURE", "PROV-SUBJECT", "TAB-RDN", "SCHEMA-TAGS", "TBS-WRITERS", "BITSTRING-LEN"),
+		"PURE", "PROV-SUBJECT", "TAB-RDN", "SCHEMA-TAGS", "TBS-WRITERS", "BITSTRING-LEN", "LINT-TAUTLEN"),
 	P("C04", "constant/layout evaluation, regexp-syntax analysis of the duration pattern, SSA wiring, guard extraction, error-drop analysis",
 		"the date layout constant and location reaching time.ParseInLocation; which capture group feeds which AddDate argument of the single calendar addition; the default lifetime; the from-absent default; From/Until passed in order and converted to UTC; the exact guard under which a profile's validity is inherited; that no parse error of a duration count is dropped; the year range guard. Also: duration counts are parsed in base 10; the hash blanks exactly the run-relative bounds (path table), so an edited explicit bound is noticed.",
 		"calendar arithmetic itself, time-zone behaviour, the UTCTime/GeneralizedTime choice (library).",
@@ -52,15 +52,15 @@ var properties = []Property{
 	P("C05", "constant/table evaluation over AST+types and SSA decision chains, compared with RFC reference tables; guard analysis of key sources",
 		"all 14 key-algorithm names and 8 signature-algorithm names of the schema followed through the program's finite tables (name -> constant -> key kind -> RSA bit size / library curve constructor -> named-curve OID and its inverse; name -> constant -> hash constructor, hash id, OID, key kind, inner = outer OID), the SubjectPublicKeyInfo/PKCS#8 identifiers, the documented defaults, and that the generated key (for the configured algorithm) is the key whose bits go into the SubjectPublicKeyInfo. Also: the body is built and signed from the stored configuration itself, and the signing function is called with the configured signature algorithm.",
 		"that the library curve constructors implement those curves; that key generation succeeds; anything at run time.",
-		"TAB-KEYALG", "TAB-CURVEOID", "TAB-ALGOID", "TAB-SIGALG", "PROV-KEY", "PROV-SIGN", "POINT-ORDER"),
+		"TAB-KEYALG", "TAB-CURVEOID", "TAB-ALGOID", "TAB-SIGALG", "PROV-KEY", "PROV-SIGN", "POINT-ORDER", "DEFAULT-WHEN-EMPTY"),
 	P("C06", "index-preservation analysis of list loops, SSA data flow of the critical flag, provenance of raw values, partial-read lint, schema/struct comparison, field liveness",
 		"that every loop filling a list of extensions stores element i at index i; that the critical flag of every constructor and of raw extensions comes from the configuration; that a !binary value is the standard base64 decoding of everything after the prefix (no single Read, no pattern match); that every configured field is consumed and every schema property has a field; that every extension kind names its own OID. Also: a raw value is handed on as read (an empty value is not turned into nil, which would drop an optional field).",
 		"base64 decoding correctness, behaviour for 64 KiB payloads, what the merge algorithm does to the list (C08).",
-		"PROV-EXT", "PROV-CRIT", "PROV-RAW", "LINT-READ", "TAB-EXTOID", "SCHEMA-TAGS", "LIVE-FIELD"),
+		"PROV-EXT", "PROV-CRIT", "PROV-RAW", "LINT-READ", "TAB-EXTOID", "SCHEMA-TAGS", "LIVE-FIELD", "PARSE-EXT", "RAW-TABLE"),
 	P("C07", "table evaluation against RFC 5280/6960, ASN.1 shape comparison, wiring table over access-path provenance, dependence, range-check and aliasing lints",
 		"every key-usage bit, extended-key-usage OID, general-name tag, qualifier id, access-method OID and extension OID against the RFCs; the shapes of the marshalled extension structs; that every YAML content field reaches the like-meaning certificate-side field; that key identifiers hash the right bits; that the keyUsage bit length depends on the flags; that parsed IP octets are range-checked; that buffers and slices handed on are not overwritten. Also: every loop that encodes list elements encodes each one and is left early only with an error; no parameter decides whether another one is encoded; the issuer context the authority key identifier hashes from is the one attached before signing.",
 		"byte-exact encodings ('an independent decoder reads back'). Known finding D10: pathLen 0 cannot be expressed by the encoder.",
-		"TAB-KU", "TAB-EKU", "TAB-GN", "TAB-QUAL", "TAB-EXTOID", "ASN1-EXT", "PROV-CONTENT", "PROV-KEYID", "LIVE-DEP", "LINT-NARROW", "LINT-REUSE", "LINT-STALE", "ENC-LOOP", "ENC-GATE", "PROV-ISSUER", "ASN1-RAWSEQ", "OCSP-NULL"),
+		"TAB-KU", "TAB-EKU", "TAB-GN", "TAB-QUAL", "TAB-EXTOID", "ASN1-EXT", "PROV-CONTENT", "PROV-KEYID", "LIVE-DEP", "LINT-NARROW", "LINT-REUSE", "LINT-STALE", "ENC-LOOP", "ENC-GATE", "PROV-ISSUER", "ASN1-RAWSEQ", "OCSP-NULL", "LINT-TAUTLEN", "LINT-ARRFILL"),
 	P("C08", "purity analysis, error-propagation chains over the module call graph, field-by-field provenance of the merged value; bounded path enumeration of one round of each merge loop with a decision-table comparison (no solver)",
 		"four clauses: per profile entry, what Merge emits and records is what the documented table says on every path of one round (MERGE-PATHS); merging does not write to the profile or configuration it was given; the merged value is a whole copy in which only Validity (under the exact inheritance guard) and Extensions (a fresh list) differ; a content-less extension that remains makes generation fail (the override-needed builder always errs, every Builder/Compile error is returned up to the CLI, every Builder hands the handler's result back).",
 		"the merge over lists longer than the unrolling (MERGE-PATHS walks every path through one round of each loop with the inner loops unrolled twice and compares it with the documented decision table; it recognises index lists kept as slices searched by a loop, slices.Contains or a helper, maps and boolean slices - another bookkeeping is reported as undecided).",
@@ -92,7 +92,7 @@ var properties = []Property{
 	P("C16", "table evaluation, ASN.1 shape comparison, coverage of partial marshalling ranges, wiring table, reuse lint",
 		"the general-name kinds of authority names, the tags and string kinds of NamingAuthority / Admissions / ProfessionInfo against Common PKI, that the hand-written marshal methods cover every field once in order, the explicit [0] wrapper, that every YAML admission field reaches its structure field from the right list element, and that slices handed on are not reused. Also: encoding loops cover every element; configured numbers are parsed in base 10.",
 		"the assembled TLV bytes.",
-		"TAB-GN", "ASN1-ADM", "PARTIAL-COVER", "PROV-CONTENT", "TAB-EXTOID", "LINT-REUSE", "LINT-STALE", "ENC-LOOP", "ENC-GATE", "LINT-NARROW"),
+		"TAB-GN", "ASN1-ADM", "PARTIAL-COVER", "PROV-CONTENT", "TAB-EXTOID", "LINT-REUSE", "LINT-STALE", "ENC-LOOP", "ENC-GATE", "LINT-NARROW", "LINT-TAUTLEN"),
 	P("C17", "table bijection, ASN.1 shape comparison, structural check of scalar width and range test, writer/reader table agreement",
 		"that curve OIDs and their inverse agree for all ten curves; the PKCS#8 and ECPrivateKey shapes and version constants; fixed-width scalar (FillBytes into (N.BitLen()+7)/8 bytes) and the reader rejecting exactly k >= N; the algorithm identifiers of writer and reader; that every PEM type written is read. Also: a file opened for writing is truncated; the artifact is read whole.",
 		"equality of keys after a round trip, interoperability with other implementations.",
@@ -100,7 +100,7 @@ var properties = []Property{
 	P("C18", "dominance of the consistency check, call-graph effect closure, error-propagation chain through the directory walk, structural alias derivation, suffix table",
 		"that Open succeeds only behind the consistency check (visited == NumEntities over roots and subscribers) and cannot write; that a duplicate alias is an error returned through the walk and Open to the CLI (non-zero exit before planning); the default alias derivation; the suffix table on the lower-cased name; that a file that does not parse is skipped; who may write files. Also: the walk callback never answers SkipDir/SkipAll; a suffix filter written as a regular expression is evaluated against the reference suffixes and against names that merely contain one.",
 		"correctness of the reachability count for all issuer graphs.",
-		"GUARD-OPEN", "ABORT-BEFORE-WRITE", "ERR-CHAIN-OPEN", "PROV-ALIAS", "TAB-SUFFIX", "TOLERANT", "EFFECT-WRITE", "GUARD-ROOT", "WORKLIST"),
+		"GUARD-OPEN", "ABORT-BEFORE-WRITE", "ERR-CHAIN-OPEN", "PROV-ALIAS", "TAB-SUFFIX", "TOLERANT", "EFFECT-WRITE", "GUARD-ROOT", "WORKLIST", "SCHEMA-VERSION"),
 	P("C19", "access-path provenance from YAML key to certificate field, dominance (before/after signing), error-drop analysis",
 		"that each of the six manipulation keys reaches exactly its own field (OIDs through the OID parser, byte values through the raw reader with BitLength 8*len); TBS manipulations are stored before signing under their != nil guards, outer ones into the signed certificate after the signing call; a preset inner algorithm is kept; nothing is stored into the TBS after it was marshalled; a parse error of a manipulation is reported; merging keeps the manipulations. Also: the issuer context attached before signing is derived after the manipulations were applied.",
 		"that all other fields equal those of the unmanipulated run.",
@@ -108,7 +108,7 @@ var properties = []Property{
 	P("C20", "call-graph reachability of explicit panics with per-site discharge rules, bug-pattern lints with fixture controls, error-drop analysis",
 		"that every explicit panic reachable from the entry points is discharged by a checked invariant (constant in-range arguments, algorithm table rows, configurator result types, OID validation at parse time, year range); that six bug patterns are absent (relative index misuse, unchecked Index result, nil part dereference, single-result type assertion, unchecked narrowing, use after close); that no error is dropped; that schema enum values without a case reach an error. Also: a value answered as (nil, nil) is tested against nil before a method is called on it, also after it went through a struct field or a list handed to another function; every test of an error against nil is the right way round (a nil error is not reported as a failure, the results of a failed call are not used).",
 		"panics inside libraries, arbitrary index/nil safety (no abstract interpreter for integers/slices is available): this is pattern checking, not a proof of panic freedom.",
-		"PANIC-INV", "OID-VALID", "YEAR-RANGE", "LINT-RELIDX", "LINT-IDXNEG", "LINT-NILPART", "LINT-TYPEASSERT", "LINT-NARROW", "LINT-READ", "LINT-USEAFTERCLOSE", "ERR-DROP", "SCHEMA-ENUM", "LINT-TYPEDNIL", "LINT-NILRESULT", "ERR-POLARITY", "LINT-NILDEREF", "LINT-CONSTIDX", "LINT-NILPHI"),
+		"PANIC-INV", "OID-VALID", "YEAR-RANGE", "LINT-RELIDX", "LINT-IDXNEG", "LINT-NILPART", "LINT-TYPEASSERT", "LINT-NARROW", "LINT-READ", "LINT-USEAFTERCLOSE", "ERR-DROP", "SCHEMA-ENUM", "LINT-TYPEDNIL", "LINT-NILRESULT", "ERR-POLARITY", "LINT-NILDEREF", "LINT-CONSTIDX", "LINT-NILPHI", "SCHEMA-VERSION", "LINT-ARRFILL"),
 }
 
 var notApplicable = map[string]string{
